@@ -130,11 +130,19 @@ def gen_sim_cert():
               f"def outerTimeoutSlackMs : Nat := {int(mslack.group(1)) * 1000}",
               "end Elvis.Gen", ""]
     write_if_changed("SimCert.lean", "\n".join(lines))
+def subnet_kernels():
+    """C09: arithmetic kernels of subnetting.rs / Obm::cmp + representation certificates."""
+    import extract_subnet
+    try:
+        write_if_changed("SubnetKernels.lean", extract_subnet.generate(CORE))
+    except extract_subnet.ExtractError as e:
+        raise ExtractError("subnet kernels: " + str(e))
 
 
 def main():
     check_message_immutability()
     gen_sim_cert()
+    subnet_kernels()
     consts = ["-- GENERATED from /repo sources by tools/extract.py on every check; do not edit", "namespace Elvis.Gen", "end Elvis.Gen", ""]
     write_if_changed("Consts.lean", "\n".join(consts))
 
